@@ -26,6 +26,21 @@ CLAIMS = {
         design="§4 C20",
     ),
 }
+CLAIMS["C15"] = dict(
+    text="Proof that best_match returns exactly the documented precedence (exact suffix, exact patch, exact minor, LARGEST prior minor of the same major incl. minor 0, major, master only when newer than every versioned branch, else None) for every branch list and version; latest_bounded_minor and _latest_major under contract with loop invariants; called by contract from best_match.",
+    note="The regular expressions / components() are represented by assumed spec functions with scheme axioms (listed in evidence), not proved. Git side (RallyRepository.update) not under contract. One genuine defect (minor 0) was found by this check and repaired by a fix: commit.",
+    design="§4 C15",
+)
+CLAIMS["C16"] = dict(
+    text="Proof over all delegate outcome sequences (unbounded length) that Retry.__call__ makes <= retries+1 attempts, waits exactly retry-wait-period once between attempts, retries only timeouts/connection errors/HTTP 408 under retry-on-timeout and unsuccessful dict results under retry-on-error, returns/raises exactly what the last attempt produced, and leaves its own configuration untouched (frame). Ghost trace of call/sleep events with a loop invariant.",
+    note="Delegate outcomes are an assumed enumeration of classes (evidence); except-matching uses issubclass facts dumped from the installed libraries. One known finding (other TransportErrors are swallowed and retried without waiting) is listed in known_findings.txt and excluded by path tag only.",
+    design="§4 C16",
+)
+CLAIMS["C17"] = dict(
+    text="Proof over all delegate outcome sequences that EsClient.guarded makes <= 11 attempts, pauses in [2^k,2^k+1) after the k-th failure (strictly growing), retries exactly timeouts, connection errors, HTTP 429/502/503/504 and bulk errors whose every item is retryable, returns the first success without repeating the call, and maps auth errors to SystemSetupError and everything else / exhaustion to RallyError; __init__ establishes the status list; 13 call-site obligations: every store operation routes through guarded exactly once with no library-side retry option.",
+    note="Delegate outcomes are an assumed enumeration; random.random in [0,1); message texts not decided.",
+    design="§4 C17",
+)
 NA_DEFAULT = "check not built yet in this revision (the framework is under construction; see DESIGN.md §6b build order)"
 checks = []
 for p in props:
